@@ -141,7 +141,9 @@ pub fn run_entry(entry: &str, text: &str, fen: &str, stats: &mut Stats) -> Check
                 if l.is_empty() {
                     break;
                 }
-                let m = l[(h % l.len() as u64) as usize];
+                // castling first, half of the time: a right that should be gone shows when it is used
+                let castlings: Vec<Move> = l.iter().filter(|m| matches!(m.kind(), owlchess::moves::MoveKind::CastlingKingside | owlchess::moves::MoveKind::CastlingQueenside)).cloned().collect();
+                let m = if !castlings.is_empty() && h & 1 == 0 { castlings[(h >> 1) as usize % castlings.len()] } else { l[(h % l.len() as u64) as usize] };
                 h = crate::gen::splitmix(h);
                 if chain.push(m).is_err() {
                     break;
@@ -149,6 +151,21 @@ pub fn run_entry(entry: &str, text: &str, fen: &str, stats: &mut Stats) -> Check
             }
             let last = chain.last().clone();
             for m in owlchess::movegen::legal::gen_all(&last).iter() {
+                // a terse SAN text put together here from piece letter and destination (not by the library's writer)
+                if let (Some(pc), owlchess::moves::MoveKind::Simple) = (m.src_cell().piece(), m.kind()) {
+                    if pc != owlchess::types::Piece::Pawn {
+                        let st0 = format!("{}{}", pc_from_lib(pc).letter(), m.dst());
+                        if let Ok(v) = Move::from_san(&st0, &last) {
+                            match v.san(&last) {
+                                Ok(sv) => {
+                                    let st = sv.to_string();
+                                    ensure!(Move::from_san(&st, &last) == Ok(v), "after list {:?} (+ up to 3 plies) in {}: {:?} is read as {}, written {:?}, which does not read back as the same move", text, last.as_fen(), st0, v, st);
+                                }
+                                Err(e) => fail!("after list {:?} (+ up to 3 plies) in {}: {:?} is read as the move {}, which cannot be written in SAN: {}", text, last.as_fen(), st0, v, e),
+                            }
+                        }
+                    }
+                }
                 let ut = m.to_string();
                 if let Ok(v) = Move::from_uci_legal(&ut, &last) {
                     ensure!(Move::from_uci_legal(&v.to_string(), &last) == Ok(v), "after list {:?}: UCI text of the move read from {:?} does not read back", text, ut);
@@ -396,7 +413,13 @@ fn gen_pos_case(cur: &mut Cursor) -> Value {
                         off_the_rails = true;
                         bad[cur.below(bad.len())]
                     } else if !l.is_empty() && !off_the_rails {
-                        l[cur.below(l.len())]
+                        // special moves (promotions, castling, en passant, captures by or of kings and rooks) half of the time
+                        let sp: Vec<RefMove> = l.iter().filter(|m| !matches!(m.kind, Kind::Simple) || (p.is_capture(m) && (m.man.1 == Pc::K || m.man.1 == Pc::R || matches!(p.b[m.to as usize], Some((_, Pc::R)))))).cloned().collect();
+                        if !sp.is_empty() && cur.bool() {
+                            sp[cur.below(sp.len())]
+                        } else {
+                            l[cur.below(l.len())]
+                        }
                     } else {
                         ps[cur.below(ps.len())]
                     };
